@@ -210,6 +210,17 @@ class Store:
         else:
             self.client.ds.setdefault(self.name, FakeDataset()).v[0] = copy.deepcopy(value)
 
+    def remove(self):
+        """Out-of-band removal."""
+        if self.family == "json":
+            os.remove(self.path)
+        elif self.family == "redis":
+            self.client.kv.pop(self.name, None)
+        elif self.family == "mongo":
+            self.client.docs[:] = [d for d in self.client.docs if d.get("_verif_id") != self.name]
+        else:
+            self.client.ds.pop(self.name, None)
+
     def stamp(self):
         """Something that changes whenever the library writes the resource."""
         if self.family == "json":
@@ -282,6 +293,13 @@ def c_str(s):
     return "[" + ";".join(str(ord(c)) for c in s) + "]%N" if s else "[]"
 
 
+def c_z(n):
+    """Z literal; hexadecimal for big numbers (Coq converts long decimal literals slowly)."""
+    if abs(n) < 2 ** 62:
+        return f"({n})%Z"
+    return f"({'-' if n < 0 else ''}{hex(abs(n))})%Z"
+
+
 def c_float(x):
     if x == 0:
         return "(FZero %s)" % ("true" if math.copysign(1, x) < 0 else "false")
@@ -310,7 +328,7 @@ def c_scalar(v):
     if v is False:
         return "(SBool false)"
     if isinstance(v, int):
-        return f"(SInt ({v})%Z)"
+        return f"(SInt {c_z(v)})"
     if isinstance(v, float):
         if math.isnan(v) or math.isinf(v):
             raise ValueError("non-finite float")
@@ -550,3 +568,57 @@ def jsonable(v):
     if isinstance(v, (str, int, float, bool)) or v is None:
         return v
     return repr(v)
+
+
+# ------------------------------------------------------------------------------------------ hang watchdog
+# An implementation call that never returns is a deadlock (C10) and would otherwise stall the check for ever.
+# The watchdog samples the main thread: when its stack is inside the library under test (or inside a lock taken from
+# there) and has not changed for `limit` seconds, the run is reported as a violation with the stack and the harness's
+# current context (operation sequence so far) as the replay, and the process exits 1.  Harness code and Coq phases are
+# never counted (their frames are not under REPO), so a slow build cannot fire it.
+CURRENT = {"info": None}
+
+
+def set_current(info):
+    """Harnesses call this with a (cheap) reference to what is being run right now; only read when a hang is reported."""
+    CURRENT["info"] = info
+
+
+def start_watchdog(on_hang, limit=60.0, period=1.0):
+    import threading
+    main_id = threading.main_thread().ident
+    repo_prefix = os.path.realpath(REPO) + os.sep
+
+    def signature():
+        fr = sys._current_frames().get(main_id)
+        sig = []
+        inside = False
+        while fr is not None:
+            fn = fr.f_code.co_filename
+            sig.append((fn, fr.f_lineno, fr.f_lasti))
+            if os.path.realpath(fn).startswith(repo_prefix):
+                inside = True
+            fr = fr.f_back
+        return inside, tuple(sig)
+
+    def loop():
+        last, since = None, time.time()
+        while True:
+            time.sleep(period)
+            try:
+                inside, sig = signature()
+            except Exception:  # noqa
+                continue
+            if not inside or sig != last:
+                last, since = sig, time.time()
+                continue
+            if time.time() - since >= limit:
+                stack = [f"{fn}:{ln}" for fn, ln, _ in sig][:25]
+                try:
+                    on_hang(stack, CURRENT["info"])
+                finally:
+                    sys.stdout.flush()
+                    os._exit(1)
+    t = threading.Thread(target=loop, name="verif-watchdog", daemon=True)
+    t.start()
+    return t
